@@ -126,7 +126,7 @@ func (x *Exec) funcEnv(fi *FuncInfo, mode string, cur, old *State, args []Value,
 	}
 	ev.lookup = func(name string, st *State, isOld bool) (Value, bool) {
 		if mode == "inv" && !isOld {
-			if a, err := fi.cell(name); err != nil {
+			if a, err := x.W.cellAt(fi, name, x.invPos); err != nil {
 				sfail("%v", err)
 			} else if a != nil {
 				if v, ok := st.cells[a]; ok {
@@ -280,6 +280,21 @@ func (w *World) VerifyFunc(fs *FuncSpec) {
 		}
 		n := 0
 		for _, c := range fs.Clauses {
+			if c.Kind == "establishes" {
+				// the package initialiser must establish every global invariant of its package
+				for _, gi := range w.GlobalInvs {
+					if gi.Pkg != fs.Pkg {
+						continue
+					}
+					gev := &Env{W: w, st: s, pkg: fn.Pkg, bound: map[string]SVal{}}
+					t, err := gev.EvalBool(gi.E)
+					if err != nil {
+						w.errorf("%s: global invariant %s: %v", fi.Key, gi.Name, err)
+						continue
+					}
+					x.oblige(s, "establishes", "/"+gi.Name, "global "+gi.Name+": "+gi.Text, fn.Pos(), t)
+				}
+			}
 			if c.Kind != "ensures" {
 				continue
 			}
@@ -493,6 +508,7 @@ func (x *Exec) applyUse(st *State, c *Clause, ev *Env, fi *FuncInfo) {
 	if err != nil {
 		vfail("%s: %v", c.Line, err)
 	}
+	x.W.noteLemmaUse(x.top.Key, call.Fn)
 	st.assume(t)
 }
 
@@ -561,6 +577,7 @@ func (x *Exec) loopSpec(fr *frame, lp *Loop) *LoopSpec {
 
 func (x *Exec) checkInvariants(st *State, fr *frame, lp *Loop, phase string) {
 	ls := x.loopSpec(fr, lp)
+	x.invPos = lp.BodyPos
 	ev := x.funcEnv(fr.fi, "inv", st, x.entryFor(fr), x.argsFor(fr), nil)
 	n := 0
 	for _, c := range ls.Clauses {
@@ -656,6 +673,7 @@ func (x *Exec) havocLoop(st *State, fr *frame, lp *Loop) {
 		st.globals[g] = v
 	}
 	// assume invariants
+	x.invPos = lp.BodyPos
 	ev := x.funcEnv(fr.fi, "inv", st, x.entry, x.argsFor(fr), nil)
 	for _, c := range ls.Clauses {
 		if c.Kind != "invariant" {
